@@ -93,6 +93,12 @@ def run(seq):
                 eps.unlink_spec(*spec, owner=op[3])
                 if model_e.get(spec) == op[3]:
                     del model_e[spec]
+            elif k == 'eunlink_all':
+                # what a finishing container calls: releases the caller's specs of the instance, nobody else's
+                eps.unlink_all(op[1], owner=op[2])
+                for spec, o in list(model_e.items()):
+                    if spec[0] == op[1] and o == op[2]:
+                        del model_e[spec]
             elif k == 'rgc':
                 rules.garbage_collect()
                 for key, o in list(model_r.items()):
@@ -125,6 +131,23 @@ def rand_seq(rng):
     owners = ['o1', 'o2', 'o3']
     ips = ['192.168.0.%d' % i for i in range(1, 5)]
     seq = []
+    if rng.random() < 0.15:
+        # drive the address pool to its end: owners allocate and free, then fill
+        seq = [('owner+', o) for o in owners]
+        for _ in range(rng.randint(0, 4)):
+            seq.append(('valloc', rng.choice(owners), None))
+            if rng.random() < 0.5:
+                seq.append(('vfree', rng.choice(owners), rng.choice(ips)))
+        seq += [('valloc', rng.choice(owners), None) for _ in range(rng.randint(5, 9))]
+        return seq
+    if rng.random() < 0.15:
+        # two generations of one instance register endpoints; each releases its own
+        seq = [('owner+', o) for o in owners]
+        for _ in range(rng.randint(2, 6)):
+            seq.append(('ecreate', 'p.a#1', rng.choice(['http', 'ssh', 'ws']), rng.choice(owners)))
+        for _ in range(rng.randint(1, 3)):
+            seq.append(('eunlink_all', 'p.a#1', rng.choice(owners)))
+        return seq
     for _ in range(rng.randint(4, 14)):
         c = rng.random()
         o = rng.choice(owners)
@@ -161,7 +184,9 @@ def main(argv):
     rng = random.Random(int(os.environ.get('VERIF_SEED', '0')))
     t0 = time.time()
     n = 0
-    while time.time() - t0 < float(os.environ.get('VERIF_REPLAY_BUDGET', '30')):
+    n_max = int(argv[1]) if argv[0] == '--bounded' else 10 ** 9
+    budget = 1e9 if argv[0] == '--bounded' else float(os.environ.get('VERIF_REPLAY_BUDGET', '30'))
+    while n < n_max and time.time() - t0 < budget:
         n += 1
         seq = rand_seq(rng)
         errs = run(seq)
